@@ -1,21 +1,23 @@
 #!/bin/sh
-# usage: seedsweep.sh <out-file> <seed> [<seed>...]   where seed = Cxx/N (under seeded/_incoming or seeded)
+# usage: seedsweep.sh <out-file> <seed-id> [...]   seed-id = Cxx-N (directory under /verif/seeded)
 # For each seed: apply patch.diff to /repo, run the property's quick check, restore /repo.
+# Never leaves /repo modified.
 out="$1"; shift
 : > "$out"
 for s in "$@"; do
-  prop=${s%%/*}
-  dir=/verif/seeded/_incoming/$s
-  [ -d "$dir" ] || dir=/verif/seeded/$s
+  prop=${s%%-*}
+  dir=/verif/seeded/$s
   cd /repo || exit 3
   git diff --quiet || { echo "$s repo-dirty" >> "$out"; exit 3; }
   if ! git apply "$dir/patch.diff" 2>/dev/null; then echo "$s PATCH-DOES-NOT-APPLY" >> "$out"; continue; fi
   cd /verif
+  start=$(date +%s)
   ./check "$prop" quick > /verif/.work/sweep.log 2>&1
   rc=$?
+  end=$(date +%s)
   v=$(grep -c "^VIOLATION" /verif/.work/sweep.log)
-  first=$(grep "^VIOLATION" /verif/.work/sweep.log | head -3 | sed 's/replay=[^ ]* //' | cut -c1-160 | tr '\n' '|')
-  echo "$s exit=$rc violations=$v $first" >> "$out"
+  first=$(grep "^VIOLATION" /verif/.work/sweep.log | sed 's/.*obligation=\([^ ]*\).*/\1/' | sed 's/^rt\[[^]]*\]/rt/' | sort -u | head -4 | tr '\n' ' ')
+  echo "$s exit=$rc violations=$v secs=$((end-start)) :: $first" >> "$out"
   git -C /repo checkout -- . ; git -C /repo clean -fdq
 done
 echo done >> "$out"
